@@ -1,6 +1,6 @@
 // C06 replay helper (double precision, real code): finite differences of the eigen tensors of a
 // symmetric tensor against stensor::computeEigenTensorsDerivatives.
-// stdin: N i  s[0..S-1]  h[0..S-1]   (Mandel components)
+// stdin: N lambda  s[0..S-1]  h[0..S-1]   (Mandel components; lambda: the eigenvalue whose eigen tensor is followed)
 // stdout: D = dn_i . h from the helper, then for steps 1e-3..1e-6 the central difference of n_i along h.
 #include <cmath>
 #include <iostream>
@@ -26,7 +26,7 @@ static void eigen_tensor(stensor<N, double>& n, tvector<3u, double>& vp, rotatio
 }
 
 template <unsigned short N>
-static int run(const int i) {
+static int run(const double lambda) {
   constexpr auto S = StensorDimeToSize<N>::value;
   stensor<N, double> s, h;
   for (int k = 0; k != S; ++k) std::cin >> s[k];
@@ -34,12 +34,17 @@ static int run(const int i) {
   tvector<3u, double> vp;
   rotation_matrix<double> m;
   stensor<N, double> n;
+  eigen_tensor<N>(n, vp, m, s, 0., false, 0);
+  int i = 0;  // index, in the library's own ordering, of the eigenvalue closest to lambda
+  for (int j = 1; j != 3; ++j) {
+    if (std::abs(vp[j] - lambda) < std::abs(vp[i] - lambda)) i = j;
+  }
   eigen_tensor<N>(n, vp, m, s, 0., false, i);
   st2tost2<N, double> dn0, dn1, dn2;
   stensor<N, double>::computeEigenTensorsDerivatives(dn0, dn1, dn2, vp, m, 1.e-12);
   const st2tost2<N, double>& dn = (i == 0) ? dn0 : ((i == 1) ? dn1 : dn2);
   const stensor<N, double> D = dn * h;
-  std::cout << std::setprecision(17) << "eigenvalues " << vp[0] << " " << vp[1] << " " << vp[2] << "\n";
+  std::cout << std::setprecision(17) << "index " << i << "\neigenvalues " << vp[0] << " " << vp[1] << " " << vp[2] << "\n";
   std::cout << "eigen_tensor";
   for (int k = 0; k != S; ++k) std::cout << " " << n[k];
   std::cout << "\nhelper";
@@ -60,9 +65,10 @@ static int run(const int i) {
 }
 
 int main() {
-  int N, i;
-  std::cin >> N >> i;
-  if (N == 2) return run<2>(i);
-  if (N == 3) return run<3>(i);
+  int N;
+  double lambda;
+  std::cin >> N >> lambda;
+  if (N == 2) return run<2>(lambda);
+  if (N == 3) return run<3>(lambda);
   return 1;
 }
